@@ -193,9 +193,50 @@ Proof. destruct st as [op v rl| | | | | |]; cbn; try reflexivity. destruct op; c
 Theorem analyze_m15_sound s : analyze_m15 s = true -> m15_representable s = true.
 Proof.
   unfold analyze_m15, m15_representable. destruct (first_lra s) as [l|]; [|discriminate].
-  rewrite !andb_true_iff. intros [[Hf Hd] Hp]. split; [split; [exact Hf|]|].
-  - apply negb_true_iff, Z.ltb_ge in Hd. now apply Z.leb_le.
+  rewrite !andb_true_iff. intros [[[Hf Hd] Hr] Hp].
+  apply negb_true_iff, Z.ltb_ge in Hd. apply Z.eqb_eq in Hr.
+  split; [split; [split; [exact Hf|now apply Z.leb_le]|]|].
+  - apply Z.eqb_eq. rewrite <- Hr. symmetry. apply Z.rem_mod_nonneg; lia.
   - rewrite forallb_forall in *. intros st Hst. rewrite <- m15_stage_ok_spec. now apply Hp.
+Qed.
+
+(* a window made of whole 15-second slots: the slot of a line falls into the window of the line *)
+Lemma bucket_floor15 k ts : 0 <= ts -> 0 < k ->
+  bucket_sql_z (15000000000 * k) (floor15 ts) = bucket_sql_z (15000000000 * k) ts.
+Proof.
+  intros Hts Hk. unfold bucket_sql_z, floor15. f_equal.
+  rewrite (quot_div_nonneg ts 15000000000) by lia.
+  assert (H0 : 0 <= ts / 15000000000 * 15000000000) by (apply Z.mul_nonneg_nonneg; [apply Z.div_pos|]; lia).
+  rewrite (quot_div_nonneg _ (15000000000 * k) H0) by lia.
+  rewrite (quot_div_nonneg ts (15000000000 * k)) by lia.
+  rewrite <- !Z.div_div by lia. f_equal. now rewrite Z.div_mul by lia.
+Qed.
+
+(* the shortcut select over the roll-up of any row list yields what the LRA select yields over the rows themselves *)
+Definition m15_as_lra (v : m15_val) : lra_val := match v with MVCount => LVCount | MVCountDiv ms => LVCountDiv ms end.
+Theorem shortcut_value_correct v k rows : nonneg rows -> 0 < k ->
+  sem_m15 v (15000000000 * k) (m15_rows rows) = sem_lra (m15_as_lra v) (15000000000 * k) rows.
+Proof.
+  intros Hn Hk. unfold sem_m15, sem_lra, m15_rows. rewrite map_map.
+  rewrite (map_ext_in (fun x => set_ts (bucket_sql_z (15000000000 * k) (r_ts (set_ts (floor15 (r_ts x)) x))) (set_ts (floor15 (r_ts x)) x))
+                      (fun r => set_ts (bucket_sql_z (15000000000 * k) (r_ts r)) r)).
+  2:{ intros r Hr. pose proof (bucket_floor15 k (r_ts r) (Hn r Hr) Hk) as E.
+      set (d := 15000000000 * k) in *. unfold set_ts. cbn [r_ts r_fp r_labels r_line r_val]. now rewrite E. }
+  apply map_ext. intros g. destruct v; reflexivity.
+Qed.
+(* ... and a range that is not made of whole slots is attributed wrongly: the line at 25 s of a [20s] query *)
+Example shortcut_needs_whole_slots :
+  bucket_sql_z 20000000000 (floor15 25000000000) <> bucket_sql_z 20000000000 25000000000.
+Proof. vm_compute. discriminate. Qed.
+Lemma analyze_m15_whole_slots s : analyze_m15 s = true ->
+  match first_lra s with Some l => exists k, 0 < k /\ lra_dur_ns l = 15000000000 * k | None => False end.
+Proof.
+  unfold analyze_m15. destruct (first_lra s) as [l|]; [|discriminate].
+  rewrite !andb_true_iff. intros [[[Hf Hd] Hr] Hp].
+  apply negb_true_iff, Z.ltb_ge in Hd. apply Z.eqb_eq in Hr.
+  exists (lra_dur_ns l / 15000000000). rewrite Z.rem_mod_nonneg in Hr by lia.
+  pose proof (Z.div_mod (lra_dur_ns l) 15000000000 ltac:(lia)) as E. rewrite Hr in E.
+  split; [|lia]. apply Z.div_str_pos. lia.
 Qed.
 
 (* every sample read by the shortcut select lies in [floor15 from, floor15 to) : never outside the widened window *)
@@ -275,4 +316,624 @@ Proof.
   unfold analyze_m15. destruct (first_lra s) as [l|]; [|discriminate].
   rewrite !andb_true_iff. intros [_ Hp]. unfold plan_ts. rewrite plan_ts_filters; [reflexivity|].
   intros st Hst. apply m15_ok_not_parser. rewrite forallb_forall in Hp. now apply Hp.
+Qed.
+
+(* ================= the remaining stages ================= *)
+Section STAGES.
+  Variable fp : lmap -> N.
+  Variable to_float : string -> Qc.
+  Variable quantile_o : string -> list Qc -> Qc.
+  Variable varpop stddevpop : list Qc -> Qc.
+  Hypothesis fp_inj : forall a b, fp a = fp b -> a = b.           (* no collisions of cityHash64 on label maps *)
+
+  Definition u_of (r : mrow) : usample := {| u_labels := r_labels r; u_ts := r_ts r; u_val := r_val r |}.
+
+  (* --- invariants --- *)
+  Lemma consistent_sub rows rows' : consistent rows -> (forall r, In r rows' -> In r rows) -> consistent rows'.
+  Proof. intros Hc Hs a b Ha Hb. apply Hc; now apply Hs. Qed.
+  Lemma nonneg_sub rows rows' : nonneg rows -> (forall r, In r rows' -> In r rows) -> nonneg rows'.
+  Proof. intros Hn Hs a Ha. apply Hn. now apply Hs. Qed.
+
+  Lemma head_in (g : list mrow) : g <> [] -> In (head_row g) g.
+  Proof. destruct g; [congruence|]. intros _. now left. Qed.
+  Lemma same_fp_ts_refl a : same_fp_ts a a = true.
+  Proof. unfold same_fp_ts. now rewrite N.eqb_refl, Z.eqb_refl. Qed.
+
+  (* rows built by agg_row from groups of a list: fingerprint/labels/timestamp come from a member of the list *)
+  Lemma agg_rows_from (rows : list mrow) (groups : list (list mrow)) (val : list mrow -> Qc) r :
+    (forall g, In g groups -> g <> [] /\ forall x, In x g -> In x rows) ->
+    In r (map (fun g => agg_row (val g) g) groups) ->
+    exists h, In h rows /\ r_fp r = r_fp h /\ r_labels r = r_labels h /\ r_ts r = r_ts h.
+  Proof.
+    intros Hg Hr. apply in_map_iff in Hr. destruct Hr as [g [<- Hin]].
+    destruct (Hg g Hin) as [Hne Hsub]. exists (head_row g). split; [apply Hsub, head_in, Hne|]. cbn. auto.
+  Qed.
+  Lemma consistent_from rows rows' :
+    consistent rows ->
+    (forall r, In r rows' -> exists h, In h rows /\ r_fp r = r_fp h /\ r_labels r = r_labels h /\ r_ts r = r_ts h) ->
+    consistent rows'.
+  Proof.
+    intros Hc Hf a b Ha Hb. destruct (Hf a Ha) as [ha [Hha [E1 [E2 _]]]]. destruct (Hf b Hb) as [hb [Hhb [E3 [E4 _]]]].
+    rewrite E1, E2, E3, E4. now apply Hc.
+  Qed.
+  Lemma nonneg_from rows rows' :
+    nonneg rows ->
+    (forall r, In r rows' -> exists h, In h rows /\ r_fp r = r_fp h /\ r_labels r = r_labels h /\ r_ts r = r_ts h) ->
+    nonneg rows'.
+  Proof. intros Hn Hf a Ha. destruct (Hf a Ha) as [h [Hh [_ [_ E]]]]. rewrite E. now apply Hn. Qed.
+
+  Lemma groups_wf (same : mrow -> mrow -> bool) rows :
+    (forall a, same a a = true) ->
+    forall g, In g (group_by same rows) -> g <> [] /\ forall x, In x g -> In x rows.
+  Proof. intros Hr g Hg. split; [eapply group_nonempty; eauto|]. intros x Hx. eapply group_members; eauto. Qed.
+
+  Lemma sem_lra_from v d rows r : In r (sem_lra v d rows) ->
+    exists h, In h rows /\ r_fp r = r_fp h /\ r_labels r = r_labels h /\ r_ts r = bucket_sql_z d (r_ts h).
+  Proof.
+    unfold sem_lra. intros Hr.
+    destruct (agg_rows_from _ _ _ r (groups_wf same_fp_ts _ same_fp_ts_refl) Hr) as [h [Hh [E1 [E2 E3]]]].
+    apply in_map_iff in Hh. destruct Hh as [x [<- Hx]]. exists x. cbn in *. auto.
+  Qed.
+  Lemma bucket_sql_nonneg d ts : 0 <= ts -> 0 < d -> 0 <= bucket_sql_z d ts.
+  Proof. intros. rewrite bucket_sql_is_bucket by assumption. unfold bucket. apply Z.mul_nonneg_nonneg; [apply Z.div_pos|]; lia. Qed.
+  Lemma sem_lra_inv v d rows : consistent rows -> nonneg rows -> 0 < d ->
+    consistent (sem_lra v d rows) /\ nonneg (sem_lra v d rows).
+  Proof.
+    intros Hc Hn Hd. split.
+    - intros a b Ha Hb. destruct (sem_lra_from _ _ _ _ Ha) as [ha [Hha [E1 [E2 _]]]].
+      destruct (sem_lra_from _ _ _ _ Hb) as [hb [Hhb [E3 [E4 _]]]]. rewrite E1, E2, E3, E4. now apply Hc.
+    - intros a Ha. destruct (sem_lra_from _ _ _ _ Ha) as [ha [Hha [_ [_ E]]]]. rewrite E. apply bucket_sql_nonneg; [now apply Hn|exact Hd].
+  Qed.
+
+  (* --- unwrap --- *)
+  Lemma sem_unwrap_shape label rows :
+    map (fun r => (r_fp r, r_ts r, r_labels r, r_line r)) (sem_unwrap to_float label rows) = map (fun r => (r_fp r, r_ts r, r_labels r, r_line r)) rows.
+  Proof. unfold sem_unwrap. rewrite map_map. reflexivity. Qed.
+
+  (* --- by / without --- *)
+  Lemma sem_bw_consistent labels by_ rows : consistent (sem_bw fp labels by_ rows).
+  Proof.
+    intros a b Ha Hb. unfold sem_bw in *. apply in_map_iff in Ha. apply in_map_iff in Hb.
+    destruct Ha as [x [<- _]]. destruct Hb as [y [<- _]]. cbn. split; [apply fp_inj|now intros ->].
+  Qed.
+  Lemma sem_bw_nonneg labels by_ rows : nonneg rows -> nonneg (sem_bw fp labels by_ rows).
+  Proof. intros Hn a Ha. unfold sem_bw in Ha. apply in_map_iff in Ha. destruct Ha as [x [<- Hx]]. cbn. now apply Hn. Qed.
+
+  (* --- the unwrapped range aggregation --- *)
+  Lemma argmin_map {X Y} (f : X -> Y) (tx : X -> Z) (ty : Y -> Z) (l : list X) :
+    (forall x, ty (f x) = tx x) -> argmin_ts ty (map f l) = option_map f (argmin_ts tx l).
+  Proof.
+    intros H. destruct l as [|x r]; [reflexivity|]. cbn [map argmin_ts option_map]. f_equal.
+    revert x. induction r as [|y r IH]; intros x; cbn [map fold_left]; [reflexivity|].
+    rewrite !H. destruct (Z.ltb (tx y) (tx x)); apply IH.
+  Qed.
+  Lemma argmax_map {X Y} (f : X -> Y) (tx : X -> Z) (ty : Y -> Z) (l : list X) :
+    (forall x, ty (f x) = tx x) -> argmax_ts ty (map f l) = option_map f (argmax_ts tx l).
+  Proof.
+    intros H. destruct l as [|x r]; [reflexivity|]. cbn [map argmax_ts option_map]. f_equal.
+    revert x. induction r as [|y r IH]; intros x; cbn [map fold_left]; [reflexivity|].
+    rewrite !H. destruct (Z.ltb (tx x) (tx y)); apply IH.
+  Qed.
+
+  Definition pair_ts (d : Z) (r : mrow) : mrow * Z := (set_ts (bucket_sql_z d (r_ts r)) r, r_ts r).
+  Lemma uw_value_group f d v (g : list mrow) :
+    0 < d -> whole_ms d -> uw_val_of f d = Some v ->
+    urange_fn varpop stddevpop f d (map (fun u => (u_ts u, u_val u)) (map u_of g)) = Some (eval_uw varpop stddevpop v (map (pair_ts d) g)).
+  Proof.
+    intros Hd Hw Hv.
+    assert (Evals : map snd (map (fun u => (u_ts u, u_val u)) (map u_of g)) = map (fun x => r_val (fst x)) (map (pair_ts d) g)).
+    { rewrite !map_map. reflexivity. }
+    assert (Emin : match argmin_ts fst (map (fun u => (u_ts u, u_val u)) (map u_of g)) with Some x => snd x | None => qz 0 end =
+                   match argmin_ts snd (map (pair_ts d) g) with Some x => r_val (fst x) | None => qz 0 end).
+    { rewrite !map_map. rewrite (argmin_map (fun x => (u_ts (u_of x), u_val (u_of x))) r_ts fst g) by reflexivity.
+      rewrite (argmin_map (pair_ts d) r_ts snd g) by reflexivity. destruct (argmin_ts r_ts g); reflexivity. }
+    assert (Emax : match argmax_ts fst (map (fun u => (u_ts u, u_val u)) (map u_of g)) with Some x => snd x | None => qz 0 end =
+                   match argmax_ts snd (map (pair_ts d) g) with Some x => r_val (fst x) | None => qz 0 end).
+    { rewrite !map_map. rewrite (argmax_map (fun x => (u_ts (u_of x), u_val (u_of x))) r_ts fst g) by reflexivity.
+      rewrite (argmax_map (pair_ts d) r_ts snd g) by reflexivity. destruct (argmax_ts r_ts g); reflexivity. }
+    destruct f; cbn in Hv; try discriminate; inversion Hv; subst v; cbn [urange_fn eval_uw];
+      rewrite ?Evals, ?Emin, ?Emax, ?secs_ms_exact by assumption; reflexivity.
+  Qed.
+
+  Lemma same_pair_eq d rows a b : consistent rows -> nonneg rows -> 0 < d -> In a rows -> In b rows ->
+    same_fp_ts2 (pair_ts d a) (pair_ts d b) = same_u d (u_of a) (u_of b).
+  Proof.
+    intros Hc Hn Hd Ha Hb. unfold same_fp_ts2, same_fp_ts, same_u, pair_ts. cbn.
+    rewrite (fp_labels_eqb rows a b Hc Ha Hb), !bucket_sql_is_bucket by (try apply Hn; assumption). reflexivity.
+  Qed.
+
+  Theorem uwfn_stage f d v rows :
+    consistent rows -> nonneg rows -> 0 < d -> whole_ms d -> uw_val_of f d = Some v ->
+    ref_urange varpop stddevpop f d (map u_of rows) = Some (map strip (sem_uwfn varpop stddevpop v d rows)).
+  Proof.
+    intros Hc Hn Hd Hw Hv. unfold ref_urange.
+    assert (E0 : urange_fn varpop stddevpop f d [] <> None).
+    { pose proof (uw_value_group f d v [] Hd Hw Hv) as E. cbn in E. congruence. }
+    destruct (urange_fn varpop stddevpop f d []) eqn:Er; [|congruence]. f_equal.
+    unfold sem_uwfn. rewrite (group_by_pull u_of (same_u d) rows).
+    change (map (fun r => (set_ts (bucket_sql_z d (r_ts r)) r, r_ts r)) rows) with (map (pair_ts d) rows).
+    rewrite (group_by_pull (pair_ts d) same_fp_ts2 rows).
+    rewrite (group_by_ext (fun x y => same_fp_ts2 (pair_ts d x) (pair_ts d y)) (fun x y => same_u d (u_of x) (u_of y)) rows)
+      by (intros a b Ha Hb; now apply (same_pair_eq d rows)).
+    rewrite !map_map. apply map_ext_in. intros g Hg.
+    rewrite (uw_value_group f d v g Hd Hw Hv).
+    unfold strip, agg_row. cbn. destruct g as [|r g']; cbn.
+    - unfold bucket. reflexivity.
+    - rewrite bucket_sql_is_bucket; [reflexivity| |exact Hd]. apply Hn. eapply group_members; [exact Hg|now left].
+  Qed.
+
+  Lemma same_fp_ts2_refl a : same_fp_ts2 a a = true.
+  Proof. apply same_fp_ts_refl. Qed.
+  Lemma sem_uwfn_from v d rows r : In r (sem_uwfn varpop stddevpop v d rows) ->
+    exists h, In h rows /\ r_fp r = r_fp h /\ r_labels r = r_labels h /\ r_ts r = bucket_sql_z d (r_ts h).
+  Proof.
+    unfold sem_uwfn. intros Hr. apply in_map_iff in Hr. destruct Hr as [g [<- Hg]].
+    pose proof (group_nonempty same_fp_ts2 _ g same_fp_ts2_refl Hg) as Hne.
+    destruct g as [|[x t] g']; [congruence|].
+    assert (Hin : In (x, t) (map (fun r => (set_ts (bucket_sql_z d (r_ts r)) r, r_ts r)) rows)) by (eapply group_members; [exact Hg|now left]).
+    apply in_map_iff in Hin. destruct Hin as [y [E Hy]]. inversion E; subst. exists y. cbn. auto.
+  Qed.
+  Lemma sem_uwfn_inv v d rows : consistent rows -> nonneg rows -> 0 < d ->
+    consistent (sem_uwfn varpop stddevpop v d rows) /\ nonneg (sem_uwfn varpop stddevpop v d rows).
+  Proof.
+    intros Hc Hn Hd. split.
+    - intros a b Ha Hb. destruct (sem_uwfn_from _ _ _ _ Ha) as [ha [Hha [E1 [E2 _]]]].
+      destruct (sem_uwfn_from _ _ _ _ Hb) as [hb [Hhb [E3 [E4 _]]]]. rewrite E1, E2, E3, E4. now apply Hc.
+    - intros a Ha. destruct (sem_uwfn_from _ _ _ _ Ha) as [ha [Hha [_ [_ E]]]]. rewrite E. apply bucket_sql_nonneg; [now apply Hn|exact Hd].
+  Qed.
+  (* --- quantile --- *)
+  Theorem quantile_stage param d rows :
+    consistent rows -> nonneg rows -> 0 < d ->
+    ref_quantile quantile_o param d (map u_of rows) = map strip (sem_quantile quantile_o param d rows).
+  Proof.
+    intros Hc Hn Hd. unfold ref_quantile, sem_quantile.
+    rewrite (group_by_pull u_of (same_u d) rows).
+    rewrite (group_by_pull (fun r => set_ts (bucket_sql_z d (r_ts r)) r) same_fp_ts rows).
+    rewrite (group_by_ext (fun x y => same_fp_ts (set_ts (bucket_sql_z d (r_ts x)) x) (set_ts (bucket_sql_z d (r_ts y)) y))
+                          (fun x y => same_u d (u_of x) (u_of y)) rows).
+    2:{ intros a b Ha Hb. unfold same_fp_ts, same_u. cbn.
+        rewrite (fp_labels_eqb rows a b Hc Ha Hb), !bucket_sql_is_bucket by (try apply Hn; assumption). reflexivity. }
+    rewrite !map_map. apply map_ext_in. intros g Hg.
+    unfold strip, agg_row. cbn. rewrite !map_map. cbn.
+    destruct g as [|r g']; cbn.
+    - unfold bucket. reflexivity.
+    - rewrite bucket_sql_is_bucket; [reflexivity| |exact Hd]. apply Hn. eapply group_members; [exact Hg|now left].
+  Qed.
+  Lemma sem_quantile_from param d rows r : In r (sem_quantile quantile_o param d rows) ->
+    exists h, In h rows /\ r_fp r = r_fp h /\ r_labels r = r_labels h /\ r_ts r = bucket_sql_z d (r_ts h).
+  Proof.
+    unfold sem_quantile. intros Hr.
+    destruct (agg_rows_from _ _ _ r (groups_wf same_fp_ts _ same_fp_ts_refl) Hr) as [h [Hh [E1 [E2 E3]]]].
+    apply in_map_iff in Hh. destruct Hh as [x [<- Hx]]. exists x. cbn in *. auto.
+  Qed.
+  Lemma sem_quantile_inv param d rows : consistent rows -> nonneg rows -> 0 < d ->
+    consistent (sem_quantile quantile_o param d rows) /\ nonneg (sem_quantile quantile_o param d rows).
+  Proof.
+    intros Hc Hn Hd. split.
+    - intros a b Ha Hb. destruct (sem_quantile_from _ _ _ _ Ha) as [ha [Hha [E1 [E2 _]]]].
+      destruct (sem_quantile_from _ _ _ _ Hb) as [hb [Hhb [E3 [E4 _]]]]. rewrite E1, E2, E3, E4. now apply Hc.
+    - intros a Ha. destruct (sem_quantile_from _ _ _ _ Ha) as [ha [Hha [_ [_ E]]]]. rewrite E. apply bucket_sql_nonneg; [now apply Hn|exact Hd].
+  Qed.
+
+  (* --- vector aggregation --- *)
+  Definition maybe_bw (g : option by_without) (rows : list mrow) : list mrow :=
+    match g with Some b => sem_bw fp (bw_labels b) (bw_by b) rows | None => rows end.
+  Lemma maybe_bw_strip g rows :
+    map strip (maybe_bw g rows) = map (fun r => {| v_labels := regroup g (v_labels r); v_ts := v_ts r; v_val := v_val r |}) (map strip rows).
+  Proof.
+    destruct g as [b|]; cbn [maybe_bw regroup]; unfold sem_bw; rewrite !map_map; apply map_ext; intros r; reflexivity.
+  Qed.
+  Lemma maybe_bw_inv g rows : consistent rows -> nonneg rows -> consistent (maybe_bw g rows) /\ nonneg (maybe_bw g rows).
+  Proof.
+    intros Hc Hn. destruct g as [b|]; cbn [maybe_bw]; [|tauto]. split; [apply sem_bw_consistent|now apply sem_bw_nonneg].
+  Qed.
+  Lemma maybe_bw_u g rows label :
+    map u_of (maybe_bw g (sem_unwrap to_float label rows)) = usamples to_float label g (map entry_of rows).
+  Proof.
+    unfold usamples, sem_unwrap. destruct g as [b|]; cbn [maybe_bw regroup]; unfold sem_bw; rewrite !map_map; apply map_ext; intros r; reflexivity.
+  Qed.
+
+  Theorem agg_stage f rows :
+    consistent rows ->
+    map strip (sem_agg varpop stddevpop f rows) =
+    map (fun w => {| v_labels := v_labels (head_vrow w); v_ts := v_ts (head_vrow w); v_val := eval_agg varpop stddevpop f (map v_val w) |})
+        (group_by same_lbl_ts (map strip rows)).
+  Proof.
+    intros Hc. unfold sem_agg. rewrite (group_by_pull strip same_lbl_ts rows).
+    rewrite (group_by_ext same_fp_ts (fun x y => same_lbl_ts (strip x) (strip y)) rows).
+    2:{ intros a b Ha Hb. unfold same_fp_ts, same_lbl_ts. cbn. now rewrite (fp_labels_eqb rows a b Hc Ha Hb). }
+    rewrite !map_map. apply map_ext. intros g. unfold strip, agg_row. cbn. rewrite !map_map. cbn.
+    destruct g; reflexivity.
+  Qed.
+  Corollary agg_stage_ref f g rows :
+    consistent (maybe_bw g rows) ->
+    ref_agg varpop stddevpop f g (map strip rows) = map strip (sem_agg varpop stddevpop f (maybe_bw g rows)).
+  Proof. intros Hc. unfold ref_agg. rewrite <- maybe_bw_strip. symmetry. now apply agg_stage. Qed.
+  Lemma sem_agg_from f rows r : In r (sem_agg varpop stddevpop f rows) ->
+    exists h, In h rows /\ r_fp r = r_fp h /\ r_labels r = r_labels h /\ r_ts r = r_ts h.
+  Proof. unfold sem_agg. intros Hr. exact (agg_rows_from _ _ _ r (groups_wf same_fp_ts _ same_fp_ts_refl) Hr). Qed.
+  Lemma sem_agg_inv f rows : consistent rows -> nonneg rows ->
+    consistent (sem_agg varpop stddevpop f rows) /\ nonneg (sem_agg varpop stddevpop f rows).
+  Proof.
+    intros Hc Hn. split; [apply (consistent_from rows)|apply (nonneg_from rows)]; try assumption; intros r Hr; now apply (sem_agg_from f).
+  Qed.
+
+  (* --- comparison --- *)
+  Lemma cmp_stage fn v rows :
+    ref_cmp (Some {| cmp_fn := fn; cmp_val := v |}) (map strip rows) = map strip (sem_cmp fn v rows).
+  Proof.
+    cbn [ref_cmp cmp_fn cmp_val]. unfold sem_cmp. induction rows as [|r rows IH]; cbn; [reflexivity|].
+    destruct (cmp_holds fn (r_val r) (dec_value v)); cbn; now rewrite IH.
+  Qed.
+  Lemma sem_cmp_inv fn v rows : consistent rows -> nonneg rows -> consistent (sem_cmp fn v rows) /\ nonneg (sem_cmp fn v rows).
+  Proof.
+    intros Hc Hn. split; [apply (consistent_sub rows)|apply (nonneg_sub rows)]; try assumption;
+      intros r Hr; unfold sem_cmp in Hr; apply filter_In in Hr; tauto.
+  Qed.
+
+  (* --- step re-bucketing --- *)
+  Theorem step_stage step d rows :
+    consistent rows -> nonneg rows -> 0 < step ->
+    ref_step step d (map strip rows) = map strip (if Z.leb step d then rows else sem_stepfix step rows).
+  Proof.
+    intros Hc Hn Hs. unfold ref_step. destruct (Z.leb step d); [reflexivity|].
+    unfold sem_stepfix. rewrite (group_by_pull strip (same_step step) rows).
+    change (map (fun r => (set_ts (bucket_sql_z step (r_ts r)) r, r_ts r)) rows) with (map (pair_ts step) rows).
+    rewrite (group_by_pull (pair_ts step) same_fp_ts2 rows).
+    rewrite (group_by_ext (fun x y => same_fp_ts2 (pair_ts step x) (pair_ts step y)) (fun x y => same_step step (strip x) (strip y)) rows).
+    2:{ intros a b Ha Hb. unfold same_fp_ts2, same_fp_ts, same_step, pair_ts. cbn.
+        rewrite (fp_labels_eqb rows a b Hc Ha Hb), !bucket_sql_is_bucket by (try apply Hn; assumption). reflexivity. }
+    rewrite !map_map. apply map_ext_in. intros g Hg.
+    rewrite (argmin_map strip r_ts v_ts g) by reflexivity.
+    rewrite (argmin_map (pair_ts step) r_ts snd g) by reflexivity.
+    unfold strip at 1, agg_row. cbn. rewrite !map_map. cbn.
+    destruct g as [|r g']; cbn.
+    - unfold bucket. reflexivity.
+    - rewrite bucket_sql_is_bucket; [|apply Hn; eapply group_members; [exact Hg|now left]|exact Hs].
+      f_equal. destruct (fold_left _ g' r); reflexivity.
+  Qed.
+End STAGES.
+
+(* ================= the planner chain ================= *)
+(* planners of the log part (and unwrap): sem passes the base rows through them, changing at most the value column *)
+Fixpoint nmh (p : planner) : bool :=
+  match p with
+  | PUnwrapP _ m => nmh m
+  | PLabelsJoin m _ _ _ => nmh m
+  | PMainFinalizer m _ _ => nmh m
+  | PLraP _ _ _ _ | PUnwrapFnP _ _ _ | PByWithoutP _ _ _ _ | PAggOpP _ _ _ | PComparisonP _ _ _ | PTopKP _ _ _
+  | PQuantileP _ _ _ | PStepFixP _ _ | PMetrics15 _ _ => false
+  | _ => true
+  end.
+Definition shape (rows : list mrow) := map (fun r => (r_fp r, r_ts r, r_labels r, r_line r)) rows.
+
+Lemma shape_in rows rows' r : shape rows = shape rows' -> In r rows ->
+  exists r', In r' rows' /\ r_fp r = r_fp r' /\ r_labels r = r_labels r' /\ r_ts r = r_ts r'.
+Proof.
+  revert rows'. induction rows as [|a l IH]; intros [|b l'] E Hr; cbn in *; try contradiction; try discriminate.
+  inversion E as [[E1 E2 E3 E4 E5]]. destruct Hr as [<-|Hr].
+  - exists b. auto.
+  - destruct (IH l' E5 Hr) as [r' [Hr' Hx]]. exists r'. auto.
+Qed.
+Lemma shape_consistent rows rows' : shape rows = shape rows' -> consistent rows' -> consistent rows.
+Proof. intros E Hc. apply (consistent_from rows'); [exact Hc|]. intros r Hr. now apply (shape_in rows rows'). Qed.
+Lemma shape_nonneg rows rows' : shape rows = shape rows' -> nonneg rows' -> nonneg rows.
+Proof. intros E Hn. apply (nonneg_from rows'); [exact Hn|]. intros r Hr. now apply (shape_in rows rows'). Qed.
+Lemma shape_entries rows rows' : shape rows = shape rows' -> map entry_of rows = map entry_of rows'.
+Proof.
+  revert rows'. induction rows as [|a l IH]; intros [|b l'] E; cbn in *; try discriminate; [reflexivity|].
+  inversion E as [[E1 E2 E3 E4 E5]]. rewrite (IH l' E5). unfold entry_of. now rewrite E2, E3, E4.
+Qed.
+
+Section CHAIN.
+  Variable fp : lmap -> N.
+  Variable to_float : string -> Qc.
+  Variable quantile_o : string -> list Qc -> Qc.
+  Variable varpop stddevpop : list Qc -> Qc.
+  Hypothesis fp_inj : forall a b, fp a = fp b -> a = b.
+  Notation sem := (sem fp to_float quantile_o varpop stddevpop).
+
+  Lemma sem_nmh c base : forall p, nmh p = true -> exists rows0, sem p c base = Some rows0 /\ shape rows0 = shape base.
+  Proof.
+    induction p; cbn [nmh LogqlMetricSem.sem]; intros H; try discriminate; try (exists base; split; reflexivity).
+    - (* PLabelsJoin *) now apply IHp1.
+    - (* PMainFinalizer *) now apply IHp.
+    - (* PUnwrapP *) destruct (IHp H) as [rows0 [E S]]. rewrite E. eexists. split; [reflexivity|].
+      unfold shape in *. now rewrite sem_unwrap_shape.
+  Qed.
+
+  (* --- shape of planSpl's result --- *)
+  Lemma plan_stage_nmh s b cur cur2 : plan_stage s b cur = Some cur2 -> nmh cur = true -> nmh cur2 = true.
+  Proof.
+    destruct s; cbn; intros E H; inversion E; subst; try destruct b; cbn; auto.
+  Qed.
+  Lemma plan_spl_nmh : forall ppl simple renew i lji fpp cur spl,
+    plan_spl ppl simple renew i lji fpp cur = Some spl -> nmh cur = true -> nmh spl = true.
+  Proof.
+    induction ppl as [|s r IH]; intros simple renew i lji fpp cur spl E H; cbn [plan_spl] in E.
+    - destruct simple, renew; inversion E; subst; exact H.
+    - destruct simple as [|b bs]; [inversion E; subst; exact H|]. destruct renew as [|rn rns]; [inversion E; subst; exact H|].
+      set (cur1 := if match lji with Some j => Nat.eqb i j | None => false end
+                   then PLabelsJoin (PMainOrderBy ["timestamp_ns"%string] cur) fpp PTimeSeriesInit true else cur) in E.
+      assert (H1 : nmh cur1 = true) by (unfold cur1; destruct (match lji with Some j => Nat.eqb i j | None => false end); [reflexivity|exact H]).
+      destruct (plan_stage s b cur1) as [cur2|] eqn:Es; [|discriminate].
+      pose proof (plan_stage_nmh _ _ _ _ Es H1) as H2.
+      eapply IH; [exact E|]. destruct rn; [reflexivity|exact H2].
+  Qed.
+
+  Fixpoint last_st (l : list stage) : option stage :=
+    match l with [] => None | s :: r => match r with [] => Some s | _ => last_st r end end.
+  Lemma rev_head_last (l : list stage) : hd_error (rev l) = last_st l.
+  Proof.
+    induction l as [|a r IH]; [reflexivity|]. cbn [rev last_st]. destruct r as [|b r'].
+    - reflexivity.
+    - rewrite <- IH. destruct (rev (b :: r')) eqn:E; [|reflexivity].
+      apply (f_equal (@List.length stage)) in E. rewrite rev_length in E. discriminate.
+  Qed.
+  Lemma unwrap_label_last sel : unwrap_label sel = match last_st (sel_pipeline sel) with Some (PUnwrap l) => Some l | _ => None end.
+  Proof. unfold unwrap_label. rewrite <- rev_head_last. destruct (rev (sel_pipeline sel)) as [|[] ?]; reflexivity. Qed.
+  Lemma last_is_unwrap_last ppl : last_is_unwrap ppl = match last_st ppl with Some (PUnwrap _) => true | _ => false end.
+  Proof. unfold last_is_unwrap. rewrite <- rev_head_last. destruct (rev ppl) as [|[] ?]; reflexivity. Qed.
+
+  Lemma plan_spl_unwrap : forall ppl simple i lji fpp cur spl label,
+    List.length simple = List.length ppl ->
+    plan_spl ppl simple (renew_after ppl) i lji fpp cur = Some spl -> nmh cur = true ->
+    last_st ppl = Some (PUnwrap label) ->
+    exists spl', spl = PUnwrapP label spl' /\ nmh spl' = true.
+  Proof.
+    induction ppl as [|s r IH]; intros simple i lji fpp cur spl label Hl E H Hlast; [discriminate|].
+    destruct simple as [|b bs]; [discriminate|]. cbn [renew_after plan_spl] in E.
+    set (cur1 := if match lji with Some j => Nat.eqb i j | None => false end
+                 then PLabelsJoin (PMainOrderBy ["timestamp_ns"%string] cur) fpp PTimeSeriesInit true else cur) in E.
+    assert (H1 : nmh cur1 = true) by (unfold cur1; destruct (match lji with Some j => Nat.eqb i j | None => false end); [reflexivity|exact H]).
+    destruct (plan_stage s b cur1) as [cur2|] eqn:Es; [|discriminate].
+    pose proof (plan_stage_nmh _ _ _ _ Es H1) as H2.
+    destruct r as [|s' r'].
+    - cbn in Hlast. inversion Hlast; subst s. cbn in Es. inversion Es; subst cur2.
+      destruct bs; cbn in E; inversion E; subst spl; exists cur1; split; auto.
+    - cbn [last_st] in Hlast. eapply (IH bs); [cbn in Hl |- *; lia|exact E| |exact Hlast].
+      destruct (is_parser s && negb (is_parser s')); [reflexivity|exact H2].
+  Qed.
+
+  Lemma simple_ops_length ppl : List.length (simple_ops ppl) = List.length ppl.
+  Proof.
+    induction ppl as [|s r IH]; [reflexivity|]. cbn [simple_ops]. destruct (is_parser s); cbn; [now rewrite map_length|now rewrite IH].
+  Qed.
+
+  (* --- the tail every metric plan ends with --- *)
+  Definition post_step (c : pctx) (d : Z) (rows : list mrow) : list mrow :=
+    if Z.leb (c_step_ns c) d then rows else sem_stepfix (c_step_ns c) rows.
+  Lemma sem_tail c base (b : bool) d X fpp fin :
+    sem (PMainFinalizer (if b then PLabelsJoin (PStepFixP d X) fpp PTimeSeriesInit false else PStepFixP d X) true fin) c base =
+    option_map (post_step c d) (sem X c base).
+  Proof. destruct b; cbn [LogqlMetricSem.sem]; destruct (sem X c base); reflexivity. Qed.
+
+  Lemma sem_cmp_opt c base cmp X :
+    sem (plan_cmp cmp X) c base =
+    option_map (fun rows => match cmp with Some x => sem_cmp (cmp_fn x) (cmp_val x) rows | None => rows end) (sem X c base).
+  Proof. destruct cmp as [x|]; cbn [plan_cmp LogqlMetricSem.sem]; destruct (sem X c base); reflexivity. Qed.
+  Lemma sem_bw_opt c base pre suf use_ts X :
+    sem (plan_bw pre suf use_ts X) c base = option_map (maybe_bw fp (grouping pre suf)) (sem X c base).
+  Proof.
+    unfold plan_bw, grouping. destruct (match suf with Some b => Some b | None => pre end) as [b|];
+      cbn [LogqlMetricSem.sem maybe_bw]; destruct (sem X c base); reflexivity.
+  Qed.
+
+  Definition cmp_rows (cmp : option comparison) (rows : list mrow) : list mrow :=
+    match cmp with Some x => sem_cmp (cmp_fn x) (cmp_val x) rows | None => rows end.
+  Lemma cmp_rows_ref cmp rows : ref_cmp cmp (map strip rows) = map strip (cmp_rows cmp rows).
+  Proof. destruct cmp as [[fn v]|]; [apply cmp_stage|reflexivity]. Qed.
+  Lemma cmp_rows_inv cmp rows : consistent rows -> nonneg rows -> consistent (cmp_rows cmp rows) /\ nonneg (cmp_rows cmp rows).
+  Proof. intros Hc Hn. destruct cmp as [x|]; cbn [cmp_rows]; [now apply sem_cmp_inv|tauto]. Qed.
+
+  (* apply_mfns over fo_cmp *)
+  Lemma apply_cmp lj li cmp X : apply_mfns lj li (fo_cmp cmp) X = Some (plan_cmp cmp X).
+  Proof. destruct cmp; reflexivity. Qed.
+  Lemma apply_mfns_app lj li a b X :
+    apply_mfns lj li (a ++ b) X = match apply_mfns lj li a X with Some Y => apply_mfns lj li b Y | None => None end.
+  Proof.
+    revert X. induction a as [|f a IH]; intros X; cbn [app apply_mfns]; [reflexivity|].
+    destruct (apply_mfn lj li f X); [apply IH|reflexivity].
+  Qed.
+
+  (* --- the range-aggregation part of a chain, log or unwrapped --- *)
+  Definition lra_chain (lj : bool) (l : lra) (spl : planner) : planner :=
+    plan_cmp (lra_cmp l)
+      (if last_is_unwrap (sel_pipeline (lra_sel l))
+       then PUnwrapFnP (lra_f l) (lra_dur_ns l) (plan_bw (lra_prefix l) (lra_suffix l) (negb lj) spl)
+       else PLraP (lra_f l) (lra_dur_ns l) lj spl).
+  Lemma apply_fo_lra lj li l acc lidx X :
+    apply_mfns lj li (fst (fo_lra l acc lidx)) X =
+    match apply_mfns lj li acc X with Some Y => Some (lra_chain lj l Y) | None => None end.
+  Proof.
+    unfold fo_lra, lra_chain. destruct (last_is_unwrap (sel_pipeline (lra_sel l))); cbn [fst];
+      rewrite apply_mfns_app; destruct (apply_mfns lj li acc X) as [Y|]; try reflexivity;
+      cbn [app apply_mfns apply_mfn]; apply apply_cmp.
+  Qed.
+
+  Definition dur_ok (d : Z) : Prop := 0 < d /\ whole_ms d.
+
+  (* the rows a range aggregation yields from the rows leaving the log pipeline *)
+  Theorem lra_chain_correct c base lj l spl ppl simple i lji fpp cur :
+    sel_pipeline (lra_sel l) = ppl -> List.length simple = List.length ppl ->
+    plan_spl ppl simple (renew_after ppl) i lji fpp cur = Some spl -> nmh cur = true ->
+    dur_ok (lra_dur_ns l) -> consistent base -> nonneg base ->
+    match sem (lra_chain lj l spl) c base with
+    | Some rows => ref_lra to_float varpop stddevpop l (map entry_of base) = Some (map strip rows) /\ consistent rows /\ nonneg rows
+    | None => ref_lra to_float varpop stddevpop l (map entry_of base) = None
+    end.
+  Proof.
+    intros Hp Hl Espl Hcur [Hd Hw] Hc Hn. unfold lra_chain, ref_lra.
+    rewrite sem_cmp_opt, unwrap_label_last, last_is_unwrap_last, Hp.
+    pose proof (plan_spl_nmh _ _ _ _ _ _ _ _ Espl Hcur) as Hnm.
+    assert (Ebool : match last_st ppl with Some (PUnwrap _) => true | _ => false end =
+                    is_some (match last_st ppl with Some (PUnwrap l0) => Some l0 | _ => None end))
+      by (destruct (last_st ppl) as [[]|]; reflexivity).
+    rewrite Ebool. clear Ebool.
+    destruct (match last_st ppl with Some (PUnwrap l0) => Some l0 | _ => None end) as [label|] eqn:Eul; cbn [is_some].
+    2:{ destruct (sem_nmh c base spl Hnm) as [rows0 [E0 S0]].
+        cbn [LogqlMetricSem.sem]. rewrite E0.
+        pose proof (shape_consistent _ _ S0 Hc) as Hc0. pose proof (shape_nonneg _ _ S0 Hn) as Hn0.
+        rewrite <- (shape_entries _ _ S0).
+        destruct (lra_val_of (lra_f l) (lra_dur_ns l)) as [v|] eqn:Ev; cbn [option_map].
+        - rewrite (lra_stage _ _ v rows0 Hc0 Hn0 Hd Hw Ev), cmp_rows_ref.
+          destruct (sem_lra_inv fp fp_inj v (lra_dur_ns l) rows0 Hc0 Hn0 Hd) as [Hc1 Hn1].
+          destruct (cmp_rows_inv (lra_cmp l) _ Hc1 Hn1). auto.
+        - unfold ref_range. destruct (lra_f l); cbn in Ev; try discriminate; reflexivity. }
+    assert (Elast : last_st ppl = Some (PUnwrap label)) by (destruct (last_st ppl) as [[]|]; congruence).
+    (* unwrapped *)
+    destruct (plan_spl_unwrap _ _ _ _ _ _ _ label Hl Espl Hcur Elast) as [spl' [-> Hnm']].
+    destruct (sem_nmh c base spl' Hnm') as [rows0 [E0 S0]].
+    cbn [LogqlMetricSem.sem]. rewrite sem_bw_opt. cbn [LogqlMetricSem.sem]. rewrite E0. cbn [option_map].
+    pose proof (shape_consistent _ _ S0 Hc) as Hc0. pose proof (shape_nonneg _ _ S0 Hn) as Hn0.
+    rewrite <- (shape_entries _ _ S0).
+    set (g := grouping (lra_prefix l) (lra_suffix l)).
+    set (rows1 := maybe_bw fp g (sem_unwrap to_float label rows0)).
+    assert (Hinv : consistent rows1 /\ nonneg rows1).
+    { apply (maybe_bw_inv fp fp_inj).
+      - eapply shape_consistent; [apply sem_unwrap_shape|exact Hc0].
+      - eapply shape_nonneg; [apply sem_unwrap_shape|exact Hn0]. }
+    destruct Hinv as [Hc1 Hn1].
+    rewrite <- (maybe_bw_u fp to_float g rows0 label). fold rows1.
+    destruct (uw_val_of (lra_f l) (lra_dur_ns l)) as [v|] eqn:Ev; cbn [option_map].
+    - rewrite (uwfn_stage varpop stddevpop _ _ v rows1 Hc1 Hn1 Hd Hw Ev), cmp_rows_ref.
+      destruct (sem_uwfn_inv fp varpop stddevpop fp_inj v (lra_dur_ns l) rows1 Hc1 Hn1 Hd) as [Hc2 Hn2].
+      destruct (cmp_rows_inv (lra_cmp l) _ Hc2 Hn2). auto.
+    - unfold ref_urange. destruct (lra_f l); cbn in Ev; try discriminate; reflexivity.
+  Qed.
+  (* --- plan_metric, unfolded for a script that does not take the shortcut --- *)
+  Definition spl_of (s : script) : option planner :=
+    let sel := stream_selector s in
+    let ppl := sel_pipeline sel in
+    let simple := simple_ops ppl in
+    let fpp := plan_ts (sel_matchers sel) ppl simple in
+    plan_spl ppl simple (renew_after ppl) 0 (labels_join_idx ppl simple 0) fpp (PFingerprintFilter fpp PMainInit).
+  Definition lj_of (s : script) : bool :=
+    let ppl := sel_pipeline (stream_selector s) in is_some (labels_join_idx ppl (simple_ops ppl) 0).
+  Lemma plan_metric_unfold s fin : analyze_m15 s = false ->
+    plan_metric s fin =
+    match spl_of s with
+    | None => None
+    | Some spl =>
+      match apply_mfns (lj_of s) (is_some (snd (function_order s))) (fst (function_order s)) spl with
+      | None => None
+      | Some cur =>
+        Some (PMainFinalizer (if negb (lj_of s) && negb (is_some (snd (function_order s)))
+                              then PLabelsJoin (PStepFixP (get_duration s) cur)
+                                     (plan_ts (sel_matchers (stream_selector s)) (sel_pipeline (stream_selector s)) (simple_ops (sel_pipeline (stream_selector s))))
+                                     PTimeSeriesInit false
+                              else PStepFixP (get_duration s) cur) true fin)
+      end
+    end.
+  Proof.
+    intros Ha. unfold plan_metric, spl_of, lj_of. rewrite Ha. cbv zeta.
+    destruct (plan_spl _ _ _ _ _ _ _) as [spl|]; cbn [bind]; [|reflexivity].
+    destruct (function_order s) as [order lidx]. cbn [fst snd].
+    destruct (apply_mfns _ _ order spl) as [cur|]; cbn [bind]; reflexivity.
+  Qed.
+
+  Definition script_ok (s : script) : Prop :=
+    match s with
+    | SLra l => dur_ok (lra_dur_ns l)
+    | SAgg a => dur_ok (lra_dur_ns (agg_lra a))
+    | SQuantile q => 0 < q_dur_ns q /\ unwrap_label (q_sel q) <> None
+    | _ => False
+    end.
+
+  Notation mref := (metric_ref to_float quantile_o varpop stddevpop).
+
+  Lemma finish_step c d rows (ref : option (list vrow)) :
+    0 < c_step_ns c ->
+    match rows with
+    | Some r => ref = Some (map strip r) /\ consistent r /\ nonneg r
+    | None => ref = None
+    end ->
+    option_map (map strip) (option_map (post_step c d) rows) =
+    match ref with Some v => Some (ref_step (c_step_ns c) d v) | None => None end.
+  Proof.
+    intros Hs H. destruct rows as [r|]; cbn [option_map].
+    - destruct H as [-> [Hc Hn]]. f_equal. unfold post_step. symmetry. now apply step_stage.
+    - now rewrite H.
+  Qed.
+
+  Theorem metric_correct c base s fin p :
+    analyze_m15 s = false -> plan_metric s fin = Some p -> script_ok s ->
+    0 < c_step_ns c -> consistent base -> nonneg base ->
+    option_map (map strip) (sem p c base) = mref s c (map entry_of base).
+  Proof.
+    intros Ha Hp Hok Hs Hc Hn. rewrite (plan_metric_unfold s fin Ha) in Hp.
+    destruct (spl_of s) as [spl|] eqn:Espl; [|discriminate]. unfold spl_of in Espl.
+    assert (Hcur : forall fpp, nmh (PFingerprintFilter fpp PMainInit) = true) by reflexivity.
+    destruct s as [sel|l|a|t|q|]; cbn [script_ok] in Hok; try contradiction.
+    - (* SLra *)
+      cbn [function_order stream_selector] in *.
+      rewrite (surjective_pairing (fo_lra l [] None)) in Hp. cbn [fst snd] in Hp.
+      rewrite apply_fo_lra in Hp. cbn [apply_mfns] in Hp. inversion Hp; subst p; clear Hp.
+      rewrite sem_tail. unfold metric_ref. cbn [get_duration].
+      apply finish_step; [exact Hs|].
+      eapply lra_chain_correct; try eassumption; try reflexivity; try apply simple_ops_length; try apply Hcur.
+    - (* SAgg *)
+      cbn [function_order stream_selector] in *. unfold fo_agg in Hp.
+      rewrite (surjective_pairing (fo_lra (agg_lra a) [] None)) in Hp. cbn [fst snd] in Hp.
+      rewrite apply_mfns_app, apply_fo_lra in Hp. cbn [apply_mfns app apply_mfn] in Hp.
+      rewrite apply_cmp in Hp. inversion Hp; subst p; clear Hp.
+      rewrite sem_tail. unfold metric_ref, ref_aggop. cbn [get_duration].
+      apply finish_step; [exact Hs|].
+      rewrite sem_cmp_opt. cbn [LogqlMetricSem.sem]. rewrite sem_bw_opt.
+      pose proof (lra_chain_correct c base (lj_of (SAgg a)) (agg_lra a) spl _ _ _ _ _ _ eq_refl (simple_ops_length _) Espl (Hcur _) Hok Hc Hn) as Hl.
+      cbn [stream_selector] in Hl.
+      destruct (sem (lra_chain (lj_of (SAgg a)) (agg_lra a) spl) c base) as [rows|]; cbn [option_map].
+      + destruct Hl as [-> [Hc1 Hn1]].
+        destruct (maybe_bw_inv fp fp_inj (grouping (agg_prefix a) (agg_suffix a)) rows Hc1 Hn1) as [Hc2 Hn2].
+        rewrite (agg_stage_ref fp varpop stddevpop (agg_f a) _ rows Hc2), cmp_rows_ref.
+        destruct (sem_agg_inv fp varpop stddevpop fp_inj (agg_f a) _ Hc2 Hn2) as [Hc3 Hn3].
+        destruct (cmp_rows_inv (agg_cmp a) _ Hc3 Hn3). auto.
+      + now rewrite Hl.
+    - (* SQuantile *)
+      destruct Hok as [Hd Hul]. cbn [function_order stream_selector] in *. unfold fo_quantile in Hp. cbn [fst snd] in Hp.
+      cbn [app apply_mfns apply_mfn] in Hp. rewrite apply_cmp in Hp. inversion Hp; subst p; clear Hp.
+      rewrite sem_tail. unfold metric_ref, ref_quant. cbn [get_duration].
+      apply (finish_step c (q_dur_ns q) _ (Some _)); [exact Hs|].
+      rewrite sem_cmp_opt. cbn [LogqlMetricSem.sem]. rewrite sem_bw_opt.
+      rewrite unwrap_label_last in Hul |- *.
+      destruct (last_st (sel_pipeline (q_sel q))) as [[| | | | |label|]|] eqn:Elast; try congruence.
+      destruct (plan_spl_unwrap _ _ _ _ _ _ _ label (simple_ops_length _) Espl (Hcur _) Elast) as [spl' [-> Hnm']].
+      destruct (sem_nmh c base spl' Hnm') as [rows0 [E0 S0]].
+      cbn [LogqlMetricSem.sem]. rewrite E0. cbn [option_map].
+      pose proof (shape_consistent _ _ S0 Hc) as Hc0. pose proof (shape_nonneg _ _ S0 Hn) as Hn0.
+      rewrite <- (shape_entries _ _ S0).
+      set (g := grouping (q_prefix q) (q_suffix q)).
+      set (rows1 := maybe_bw fp g (sem_unwrap to_float label rows0)).
+      assert (Hinv : consistent rows1 /\ nonneg rows1).
+      { apply (maybe_bw_inv fp fp_inj).
+        - eapply shape_consistent; [apply sem_unwrap_shape|exact Hc0].
+        - eapply shape_nonneg; [apply sem_unwrap_shape|exact Hn0]. }
+      destruct Hinv as [Hc1 Hn1].
+      rewrite <- (maybe_bw_u fp to_float g rows0 label). fold rows1.
+      rewrite (quantile_stage quantile_o (q_param q) (q_dur_ns q) rows1 Hc1 Hn1 Hd), cmp_rows_ref.
+      destruct (sem_quantile_inv fp quantile_o fp_inj (q_param q) (q_dur_ns q) rows1 Hc1 Hn1 Hd) as [Hc2 Hn2].
+      destruct (cmp_rows_inv (q_cmp q) _ Hc2 Hn2). auto.
+  Qed.
+End CHAIN.
+
+(* hypotheses of metric_correct are met by a concrete query: sum by (a) (rate({a="b"} | json x="x" [5s]) > 1), step 15 s,
+   two streams *)
+Definition ex_sel : strsel :=
+  {| sel_matchers := [{| m_name := "a"; m_op := MEq; m_val := "b" |}]%string;
+     sel_pipeline := [PParser PJson [{| pp_label := "x"; pp_val := "x"; pp_path := Some ["x"] |}]]%string |}.
+Definition ex_script : script :=
+  SAgg {| agg_f := ASum; agg_prefix := Some {| bw_by := true; bw_labels := ["a"]%string |};
+          agg_lra := {| lra_f := FRate; lra_prefix := None; lra_sel := ex_sel; lra_dur_ns := 5000000000; lra_suffix := None;
+                        lra_cmp := Some {| cmp_fn := CGt; cmp_val := "1.000000" |} |};
+          agg_suffix := None; agg_cmp := None |}.
+Definition ex_base : list mrow :=
+  [ {| r_fp := 1%N; r_ts := 1700000001000000000; r_labels := [("a","b");("x","1")]%string; r_line := "{""x"":1}"; r_val := qz 0 |};
+    {| r_fp := 2%N; r_ts := 1700000002000000000; r_labels := [("a","b");("x","2")]%string; r_line := "{""x"":2}"; r_val := qz 0 |} ].
+Example metric_correct_hyp :
+  analyze_m15 ex_script = false /\ (exists p, plan_metric ex_script true = Some p) /\ script_ok ex_script /\
+  consistent ex_base /\ nonneg ex_base.
+Proof.
+  split; [reflexivity|]. split; [eexists; reflexivity|]. split; [split; [reflexivity|reflexivity]|]. split.
+  - intros a b [<-|[<-|[]]] [<-|[<-|[]]]; cbn; split; congruence.
+  - intros a [<-|[<-|[]]]; cbn; lia.
 Qed.
